@@ -526,7 +526,7 @@ pub fn run(o: &Opts) -> Report {
             vec!["/a/b", "/a/b", "/a"],
             vec!["/a/b/d", "/a/b/e"],
         ];
-        let cap = if o.thorough() { 30000 } else { 4000 };
+        let cap = if o.thorough() { 30000 } else { 600 };
         for backend in backends {
             for ps in &path_sets {
                 if ps.len() == 3 && backend != "mem" && !o.thorough() {
